@@ -10,6 +10,7 @@ P = "Cppcms.C18.Props."
 OBLIGATIONS = [
     (P + "layout_tie", "the header layout / write order / open flags the model transcribes are those Gen.lean extracted from the source"),
     (P + "crc_table_tie", "fall-back CRC table of crc32.h = table of the model's bitwise CRC-32; crc32_calc init = crc32 of empty"),
+    (P + "crc_fallback_eq", "the table-driven Crc32_ComputeBuf loop of crc32.h (no-zlib build) computes the model's CRC-32 for every input"),
     (P + "load_sound", "for every file content: a successful read returns exactly `size` bytes with the header's deadline (not past) and CRC"),
     (P + "no_crash_load_new", "complete save over ANY earlier content, then load before the deadline = the saved value"),
     (P + "no_crash_load_expired", "complete save, load after the deadline = no session"),
@@ -181,6 +182,17 @@ def adv_case(rng):
     return line, {"kind": "adv", "expect": f"ok 3000 {hexs(d[:j] + o[j:])}"}
 
 
+def crc_case(rng):
+    """direct tie of the CRC: crc32_calc (zlib here) vs the model's bitwise CRC-32 (and its table-driven twin)"""
+    ops = []
+    for _ in range(8):
+        n = rng.choice((0, 1, 2, 3, 4, 5, 8, 9, 63, 64, 65, 255, 256, 1000, rng.randrange(0, 3000)))
+        r = rng.random()
+        d = rb(rng, n) if r < 0.7 else (bytes(n) if r < 0.85 else bytes([rng.choice((0, 255, 1, 0x80))]) * n)
+        ops.append(f"crc {hexs(d)}")
+    return " ; ".join(ops), {"kind": "crc"}
+
+
 def gen_name(rng):
     r = rng.random()
     hexd = "0123456789abcdefABCDEF"
@@ -327,6 +339,8 @@ def gen_cases(c, scale):
         cases.append(crash_case(rng, big, S=512, d=rb(rng, n), k=1, j=n - 3, mask="all", oldops=[f"save SID 1500 {hexs(rb(rng, 100))}"], wf=True, now=1000))
     for _ in range(12 * scale):
         cases.append(adv_case(rng))
+    for _ in range(60 * scale):
+        cases.append(crc_case(rng))
     for _ in range(800 * scale):
         cases.append(gc_case(rng))
     for _ in range(400 * scale):
@@ -354,7 +368,10 @@ def judge(c, model, cases, metas, out_i):
         for n, (op, a) in enumerate(zip(ops, outs)):
             if a.startswith("exception"):
                 bad.append((k, f"exception out of the storage in op {n} ({op[0]}): {a[:200]}"))
-            if op[0] == "now":
+            if op[0] == "crc":
+                if a != str(zlib.crc32(unhex(op[1])) & 0xffffffff):
+                    bad.append((k, f"crc32_calc differs from zlib.crc32 (python) on {op[1][:80]}: {a}"))
+            elif op[0] == "now":
                 now = int(op[1])
             elif op[0] == "put":
                 tainted.add(op[1])
